@@ -12,19 +12,11 @@ import (
 
 // ttCondExprHandler: the Condition-side no-nesting filter.
 func (c *Ctx) ttCondExprHandler() {
-	isStack := ttAtom{"isStack(x)", func(fa *FnAnalysis, st *State) (bool, bool) {
-		for _, call := range c.findCalls(fa.fn, "stackTypeAliasConverter") {
-			if v, ok := fa.knownTerm(st, aTR, fa.callResultTerm(st, call, 1)); ok {
-				return v, true
-			}
-		}
-		return false, false
-	}}
 	c.runTable(ttTable{
 		rule: "R-TT", fn: "condition.defaultAssertionExpressionHandler",
-		atoms: []ttAtom{isStack, c.nativeStackAtom(1), c.flagAtom("nnest", "nnest")},
+		atoms: []ttAtom{c.stackKindAtom(1), c.flagAtom("nnest", "nnest")},
 		expect: func(v map[string]bool) string {
-			if (v["isStack(x)"] || v["native(x)"]) && v["nnest"] {
+			if v["isStackKind(x)"] && v["nnest"] {
 				return "nil"
 			}
 			return "x"
@@ -474,7 +466,7 @@ func (c *Ctx) ruleScanNesting() {
 	for b := range blocks {
 		for _, in := range b.Instrs {
 			call, ok := in.(*ssa.Call)
-			if !ok || c.calleeName(&call.Call) != "stackTypeAliasConverter" {
+			if !ok || (c.calleeName(&call.Call) != "stackTypeAliasConverter" && c.calleeName(&call.Call) != "isStackKind") {
 				continue
 			}
 			nVerdict++
@@ -497,7 +489,7 @@ func (c *Ctx) ruleScanNesting() {
 			if !known {
 				// the converter's own verdict on the last slot examined, returned as is
 				t := fa.term(s, ret.Results[0])
-				if !(t.K == "X" && t.N == 1 && t.A != nil && t.A.K == "APP" && t.A.S == "stackTypeAliasConverter") {
+				if !(t.K == "X" && t.N == 1 && t.A != nil && t.A.K == "APP" && t.A.S == "stackTypeAliasConverter") && !(t.K == "APP" && t.S == "isStackKind") {
 					problems = append(problems, "the value returned is neither a constant nor the converter's verdict: "+t.key)
 				}
 				continue
@@ -513,7 +505,7 @@ func (c *Ctx) ruleScanNesting() {
 		}
 	}
 	if len(problems) == 0 {
-		rep.ok("R-SCAN", relName(fn), "scan", pos, "slots 1..len-1 in order; verdict per slot = native Stack or converter ok; the loop goes on only while nothing was found; false only after the last slot")
+		rep.ok("R-SCAN", relName(fn), "scan", pos, "slots 1..len-1 in order; verdict per slot = the Stack test on that slot; the loop goes on only while nothing was found; false only after the last slot")
 	} else {
 		sort.Strings(problems)
 		rep.bad("R-SCAN", relName(fn), "scan", pos, strings.Join(uniq(problems), "; "))
